@@ -28,6 +28,8 @@ result = {"property": pid, **{k: meta_in.get(k) for k in ("summary", "kind", "ar
 assert sh("git status --porcelain", wt)[1].strip() == "", "worktree not clean"
 rc, o = sh(f"git apply --check {patch} && git apply {patch}", wt); assert rc == 0, o
 rc_suite, o_suite = sh("cargo nextest run --workspace --no-fail-fast --offline 2>&1 | tail -3", wt)
+if "43 passed" not in o_suite:  # upstream flake: time::test::test_now compares with /usr/bin/date and fails when a second boundary falls in between
+    rc_suite, o_suite = sh("cargo nextest run --workspace --no-fail-fast --offline 2>&1 | tail -3", wt)
 rc_feat, o_feat = sh("cargo check -p ohkami --features rt_tokio,sse,openapi --offline 2>&1 | tail -3", wt)
 sh("git checkout -- . && git clean -fdq", wt)
 result["confirmed"] = {"suite_with_change": o_suite.strip().splitlines()[-1] if o_suite.strip() else "", "suite_passes": "43 passed" in o_suite, "features_build": "error" not in o_feat}
